@@ -17,6 +17,10 @@ type Callback struct {
 	DurUS int    `json:"dur_us"`          // run time: 0 none, 1 = runtime.Gosched, otherwise microseconds
 	Fault string `json:"fault,omitempty"` // "", "error", "panic"
 	Panic string `json:"panic,omitempty"` // panic value kind when Fault == "panic" (see PanicKinds)
+	// ErrKind: which error a failing routine returns: "" a plain error, "cleanexit" modules.ErrCleanExit,
+	// "cleanexit-wrapped" an error wrapping it, "ctxcanceled" context.Canceled. A routine that returns any of
+	// them has failed.
+	ErrKind string `json:"err_kind,omitempty"`
 	// FaultTimes > 0: only the first FaultTimes invocations of the routine fail (a later attempt succeeds).
 	FaultTimes int `json:"fault_times,omitempty"`
 	// Launch: IDs of work items of this module that the routine itself starts (before it returns or fails),
@@ -102,6 +106,9 @@ type Scenario struct {
 	// NoReports: no error reporting channel is installed (and reporting to stderr is off, as always): panics are still
 	// contained, returned as panic errors with value and stack trace, and remembered as the last reported error.
 	NoReports bool `json:"no_reports,omitempty"`
+	// ManageAfterFailedStart: the steps after a failed Start are executed instead of skipped (retrying with a
+	// management pass is what a caller with module management does).
+	ManageAfterFailedStart bool `json:"manage_after_failed_start,omitempty"`
 	// UnbufferedReports: the error reporting channel has no buffer; a receiver is waiting on it all the time.
 	UnbufferedReports bool `json:"unbuffered_reports,omitempty"`
 }
